@@ -134,8 +134,10 @@ def flatten(items, rng, p_paren, stats, out):
         kind, sub = it
         wrap = False
         if p_paren and rng is not None and rng.random() < p_paren:
-            if kind == 'E0' and AVOID_DEN_PAREN:
+            if kind == 'E0den' and AVOID_DEN_PAREN:
                 stats['excluded_den_paren'] += 1
+            elif kind == 'E0agg':
+                pass                 # counted by the generator (D13)
             else:
                 wrap = True
         if not wrap:
@@ -266,8 +268,8 @@ def excluded_class(cells, c):
     return None
 
 
-def apply_corruption(r, c):
-    """-> corrupted text of Rendered r."""
+def apply_corruption_cells(r, c):
+    """-> list of per-cell texts of the corrupted Rendered r (lead + token)."""
     kind, i, arg = c
     parts = []
     for j, (lead, lead_nc, t, si) in enumerate(r.cells):
@@ -294,4 +296,8 @@ def apply_corruption(r, c):
             elif kind == 'ins_stray':
                 text = arg + ' ' + text
         parts.append(lead + text)
-    return ''.join(parts) + r.tail[0]
+    return parts
+
+
+def apply_corruption(r, c):
+    return ''.join(apply_corruption_cells(r, c)) + r.tail[0]
